@@ -831,6 +831,7 @@ func (r *replayer) checkAll(s *step) {
 			}
 		}
 		r.checkGetters(p.H, h, proj, s.Op)
+		r.checkBulkReads(p.H, h, proj, s.Op)
 		r.checkRoots(p.H, h, raw, s.Op)
 		r.checkEpc(p.H, h, s)
 	}
@@ -849,6 +850,7 @@ func (r *replayer) checkGetters(hd string, h *handle, proj map[string]interface{
 			}
 			val := out[0].Interface()
 			if hasMethod(val, "Raw") { // a typed sub-view: its Raw() is the value
+				r.stats["read|"+fi.Name+"|raw"]++
 				o2, err := callRec(val, "Raw", r.e.spec)
 				if err != nil {
 					r.dev("C15", "getter_error", fi.Name, op, hd, "%s().Raw: %v", a.get, err)
@@ -856,6 +858,7 @@ func (r *replayer) checkGetters(hd string, h *handle, proj map[string]interface{
 				}
 				val = o2[0].Interface()
 			} else if sv, ok := val.(*common.SyncCommitteeView); ok {
+				r.stats["read|"+fi.Name+"|pubkeys_flatten+aggregate"]++
 				val = r.syncCommitteeValue(sv, fi, hd, op)
 			}
 			if got := r.renorm(val, fi.goType); !reflect.DeepEqual(got, proj[fi.Name]) {
@@ -879,6 +882,296 @@ func (r *replayer) checkGetters(hd string, h *handle, proj map[string]interface{
 				}
 				if !reflect.DeepEqual(got, arr[i]) {
 					r.dev("C15", "element_getter_mismatch", fi.Name, op, hd, "%s(%d) = %s, stored %s", a.getElem, i, short(got), short(arr[i]))
+				}
+			}
+		}
+	}
+}
+
+// every read form of the typed sub-views agrees with the stored content: element getters at EVERY position, bulk reads
+// (AllBalances, Iter, FlattenValidators, Raw), per-element derived reads (Validator.Flatten) and derived aggregates
+// (Slashings.Total, Eth1DataVotes.Count/Length).  One coverage counter per (sub-view, read form).
+func (r *replayer) checkBulkReads(hd string, h *handle, proj map[string]interface{}, op string) {
+	cur := ""
+	defer func() {
+		if rec := recover(); rec != nil {
+			r.dev("C15", "bulk_read_panic", cur, op, hd, "reading %s panicked: %v", cur, rec)
+		}
+	}()
+	cmp := func(field, form string, got, want interface{}, where string) {
+		r.stats["read|"+field+"|"+form]++
+		if !reflect.DeepEqual(got, want) {
+			r.dev("C15", "read_form_mismatch", field, op, hd, "%s via %s: %s, stored %s", where, form, short(got), short(want))
+		}
+	}
+	fail := func(field, form string, err error) {
+		r.stats["read|"+field+"|"+form]++
+		r.dev("C15", "getter_error", field, op, hd, "%s: %v", form, err)
+	}
+	arrOf := func(name string) []interface{} { a, _ := proj[name].([]interface{}); return a }
+	flatOf := func(x interface{}) interface{} { // the FlatValidator part of a stored validator
+		m, _ := x.(map[string]interface{})
+		return map[string]interface{}{
+			"EffectiveBalance": m["effective_balance"], "Slashed": m["slashed"],
+			"ActivationEligibilityEpoch": m["activation_eligibility_epoch"], "ActivationEpoch": m["activation_epoch"],
+			"ExitEpoch": m["exit_epoch"], "WithdrawableEpoch": m["withdrawable_epoch"]}
+	}
+
+	// ---- validators
+	cur = "validators"
+	if vals, err := h.st.Validators(); err != nil {
+		fail(cur, "sub-view", err)
+	} else {
+		arr := arrOf(cur)
+		n, err := vals.ValidatorCount()
+		if err != nil {
+			fail(cur, "count", err)
+		} else {
+			cmp(cur, "count", n, uint64(len(arr)), "ValidatorCount")
+		}
+		for i := range arr {
+			v, err := vals.Validator(common.ValidatorIndex(i))
+			if err != nil {
+				fail(cur, "element_getters", err)
+				continue
+			}
+			got, err := r.validatorValue(v)
+			if err != nil {
+				fail(cur, "element_getters", err)
+			} else {
+				cmp(cur, "element_getters", got, arr[i], fmt.Sprintf("validator %d", i))
+			}
+			var fv common.FlatValidator
+			if err := v.Flatten(&fv); err != nil {
+				fail(cur, "flatten", err)
+			} else {
+				cmp(cur, "flatten", norm(&fv), flatOf(arr[i]), fmt.Sprintf("validator %d", i))
+			}
+		}
+		if flats, err := common.FlattenValidators(vals); err != nil {
+			fail(cur, "flatten_bulk", err)
+		} else if len(flats) != len(arr) {
+			cmp(cur, "flatten_bulk", len(flats), len(arr), "FlattenValidators length")
+		} else {
+			for i := range flats {
+				cmp(cur, "flatten_bulk", norm(&flats[i]), flatOf(arr[i]), fmt.Sprintf("FlattenValidators[%d]", i))
+			}
+		}
+		next := vals.Iter()
+		k := 0
+		for {
+			v, ok, err := next()
+			if err != nil {
+				fail(cur, "iter", err)
+				break
+			}
+			if !ok {
+				break
+			}
+			if k < len(arr) {
+				if got, err := r.validatorValue(v); err != nil {
+					fail(cur, "iter", err)
+				} else {
+					cmp(cur, "iter", got, arr[k], fmt.Sprintf("Iter item %d", k))
+				}
+			}
+			k++
+		}
+		cmp(cur, "iter", k, len(arr), "Iter item count")
+	}
+
+	// ---- balances
+	cur = "balances"
+	if bals, err := h.st.Balances(); err != nil {
+		fail(cur, "sub-view", err)
+	} else {
+		arr := arrOf(cur)
+		if all, err := bals.AllBalances(); err != nil {
+			fail(cur, "all", err)
+		} else {
+			cmp(cur, "all", norm(all), proj[cur], "AllBalances")
+		}
+		if n, err := bals.Length(); err != nil {
+			fail(cur, "length", err)
+		} else {
+			cmp(cur, "length", n, uint64(len(arr)), "Length")
+		}
+		for i := range arr {
+			if b, err := bals.GetBalance(common.ValidatorIndex(i)); err != nil {
+				fail(cur, "element_getters", err)
+			} else {
+				cmp(cur, "element_getters", norm(b), arr[i], fmt.Sprintf("GetBalance(%d)", i))
+			}
+		}
+		next := bals.Iter()
+		k := 0
+		for {
+			b, ok, err := next()
+			if err != nil {
+				fail(cur, "iter", err)
+				break
+			}
+			if !ok {
+				break
+			}
+			if k < len(arr) {
+				cmp(cur, "iter", norm(b), arr[k], fmt.Sprintf("Iter item %d", k))
+			}
+			k++
+		}
+		cmp(cur, "iter", k, len(arr), "Iter item count")
+	}
+
+	// ---- roots / mixes / slashings: every position
+	for _, name := range []string{"block_roots", "state_roots"} {
+		cur = name
+		var br common.BatchRoots
+		var err error
+		if name == "block_roots" {
+			br, err = h.st.BlockRoots()
+		} else {
+			br, err = h.st.StateRoots()
+		}
+		if err != nil {
+			fail(cur, "sub-view", err)
+			continue
+		}
+		for i, want := range arrOf(name) {
+			if got, err := br.GetRoot(common.Slot(i)); err != nil {
+				fail(cur, "element_getters", err)
+			} else {
+				cmp(cur, "element_getters", norm(got), want, fmt.Sprintf("GetRoot(%d)", i))
+			}
+		}
+	}
+	cur = "randao_mixes"
+	if mx, err := h.st.RandaoMixes(); err != nil {
+		fail(cur, "sub-view", err)
+	} else {
+		for i, want := range arrOf(cur) {
+			if got, err := mx.GetRandomMix(common.Epoch(i)); err != nil {
+				fail(cur, "element_getters", err)
+			} else {
+				cmp(cur, "element_getters", norm(got), want, fmt.Sprintf("GetRandomMix(%d)", i))
+			}
+		}
+	}
+	cur = "slashings"
+	if sl, err := h.st.Slashings(); err != nil {
+		fail(cur, "sub-view", err)
+	} else {
+		var sum uint64
+		for i, want := range arrOf(cur) {
+			if got, err := sl.GetSlashingsValue(common.Epoch(i)); err != nil {
+				fail(cur, "element_getters", err)
+			} else {
+				cmp(cur, "element_getters", norm(got), want, fmt.Sprintf("GetSlashingsValue(%d)", i))
+			}
+			if ws, ok := want.(string); ok {
+				var x uint64
+				fmt.Sscanf(ws, "%d", &x)
+				sum += x // Gwei arithmetic wraps the same way
+			}
+		}
+		if tot, err := sl.Total(); err != nil {
+			fail(cur, "total", err)
+		} else {
+			cmp(cur, "total", uint64(tot), sum, "Total")
+		}
+	}
+
+	// ---- eth1 data votes: Length and Count
+	cur = "eth1_data_votes"
+	if ev, err := h.st.Eth1DataVotes(); err != nil {
+		fail(cur, "sub-view", err)
+	} else {
+		arr := arrOf(cur)
+		if n, err := ev.Length(); err != nil {
+			fail(cur, "length", err)
+		} else {
+			cmp(cur, "length", n, uint64(len(arr)), "Length")
+		}
+		if len(arr) > 0 {
+			js, _ := json.Marshal(arr[len(arr)-1])
+			var dat common.Eth1Data
+			if err := json.Unmarshal(js, &dat); err == nil {
+				want := uint64(0)
+				for _, x := range arr {
+					if reflect.DeepEqual(x, arr[len(arr)-1]) {
+						want++
+					}
+				}
+				if c, err := ev.Count(dat); err != nil {
+					fail(cur, "count", err)
+				} else {
+					cmp(cur, "count", c, want, "Count(last vote)")
+				}
+				dat.DepositCount ^= 0x5a5a5a5a5a5a
+				present := uint64(0)
+				for _, x := range arr {
+					if reflect.DeepEqual(x, norm(&dat)) {
+						present++
+					}
+				}
+				if c, err := ev.Count(dat); err == nil {
+					cmp(cur, "count", c, present, "Count(vote not stored)")
+				}
+			}
+		}
+	}
+
+	// ---- fork-specific sub-views, reached by name
+	for _, fi := range r.flds {
+		a := r.acc[fi.Name]
+		cur = fi.Name
+		switch fi.Name {
+		case "previous_epoch_participation", "current_epoch_participation", "inactivity_scores":
+			sub, err := callRec(h.st, a.sub, r.e.spec)
+			if err != nil {
+				fail(cur, "sub-view", err)
+				continue
+			}
+			sv := sub[0].Interface()
+			if hasMethod(sv, "Raw") {
+				if out, err := callRec(sv, "Raw", r.e.spec); err != nil {
+					fail(cur, "raw", err)
+				} else {
+					cmp(cur, "raw", norm(out[0].Interface()), proj[cur], "Raw")
+				}
+			}
+			for i, want := range arrOf(cur) {
+				if got, err := r.readElem(sv, a, fi, uint64(i)); err != nil {
+					fail(cur, "element_getters", err)
+				} else {
+					cmp(cur, "element_getters", got, want, fmt.Sprintf("%s(%d)", a.getElem, i))
+				}
+			}
+		case "previous_epoch_attestations", "current_epoch_attestations":
+			sub, err := callRec(h.st, a.sub, r.e.spec)
+			if err != nil {
+				fail(cur, "sub-view", err)
+				continue
+			}
+			lv, ok := sub[0].Interface().(*phase0.PendingAttestationsView)
+			if !ok {
+				continue
+			}
+			arr := arrOf(cur)
+			if n, err := lv.Length(); err != nil {
+				fail(cur, "length", err)
+			} else {
+				cmp(cur, "length", n, uint64(len(arr)), "Length")
+			}
+			for i, want := range arr {
+				pv, err := phase0.AsPendingAttestation(lv.Get(uint64(i)))
+				if err != nil {
+					fail(cur, "element_raw", err)
+					continue
+				}
+				if raw, err := pv.Raw(); err != nil {
+					fail(cur, "element_raw", err)
+				} else {
+					cmp(cur, "element_raw", norm(raw), want, fmt.Sprintf("element %d Raw", i))
 				}
 			}
 		}
@@ -1352,42 +1645,40 @@ func (r *replayer) touchValidator(s *step, h *handle, fi *fieldInfo, a accessor,
 	for k, x := range exp {
 		exp2[k] = x
 	}
-	which := rng.Intn(7)
-	x := rng.Uint64()
-	if rng.Intn(3) == 0 {
-		x = ^uint64(0)
+	// every settable sub-field gets a new value; the four epochs are pairwise distinct and differ from the balance, so
+	// that a read form that swaps two same-typed neighbours cannot go unnoticed
+	x := rng.Uint64() >> uint(rng.Intn(40))
+	if rng.Intn(4) == 0 {
+		x = ^uint64(0) - 16 - uint64(rng.Intn(1000))
 	}
-	var werr error
-	switch which {
-	case 0:
-		var wc common.Root
-		rng.Read(wc[:])
-		werr = v.SetWithdrawalCredentials(wc)
-		exp2["withdrawal_credentials"] = norm(wc)
-	case 1:
-		werr = v.SetEffectiveBalance(common.Gwei(x))
-		exp2["effective_balance"] = norm(common.Gwei(x))
-	case 2:
-		werr = v.MakeSlashed()
-		exp2["slashed"] = true
-	case 3:
-		werr = v.SetActivationEligibilityEpoch(common.Epoch(x))
-		exp2["activation_eligibility_epoch"] = norm(common.Epoch(x))
-	case 4:
-		werr = v.SetActivationEpoch(common.Epoch(x))
-		exp2["activation_epoch"] = norm(common.Epoch(x))
-	case 5:
-		werr = v.SetExitEpoch(common.Epoch(x))
-		exp2["exit_epoch"] = norm(common.Epoch(x))
-	case 6:
-		werr = v.SetWithdrawableEpoch(common.Epoch(x))
-		exp2["withdrawable_epoch"] = norm(common.Epoch(x))
+	var wc common.Root
+	rng.Read(wc[:])
+	type w struct {
+		key string
+		val interface{}
+		do  func() error
 	}
-	r.stats[fmt.Sprintf("validator_subfield_%d", which)]++
-	if werr != nil {
-		r.dev("C15", "accessor_error", s.F, s.Op, s.H, "validator sub-field setter %d: %v", which, werr)
-		return
+	writes := []w{
+		{"withdrawal_credentials", wc, func() error { return v.SetWithdrawalCredentials(wc) }},
+		{"effective_balance", common.Gwei(x + 7), func() error { return v.SetEffectiveBalance(common.Gwei(x + 7)) }},
+		{"activation_eligibility_epoch", common.Epoch(x), func() error { return v.SetActivationEligibilityEpoch(common.Epoch(x)) }},
+		{"activation_epoch", common.Epoch(x + 1), func() error { return v.SetActivationEpoch(common.Epoch(x + 1)) }},
+		{"exit_epoch", common.Epoch(x + 2), func() error { return v.SetExitEpoch(common.Epoch(x + 2)) }},
+		{"withdrawable_epoch", common.Epoch(x + 3), func() error { return v.SetWithdrawableEpoch(common.Epoch(x + 3)) }},
 	}
+	if rng.Intn(2) == 0 {
+		writes = append(writes, w{"slashed", true, v.MakeSlashed})
+	}
+	rng.Shuffle(len(writes), func(i, j int) { writes[i], writes[j] = writes[j], writes[i] })
+	for _, wr := range writes {
+		r.stats["validator_subfield_"+wr.key]++
+		if err := wr.do(); err != nil {
+			r.dev("C15", "accessor_error", s.F, s.Op, s.H, "validator sub-field setter %s: %v", wr.key, err)
+			return
+		}
+		exp2[wr.key] = norm(wr.val)
+	}
+	which := "all"
 	// re-read through a fresh sub-view of the state
 	sub2, _ := callRec(h.st, a.sub, r.e.spec)
 	got, err := r.readElem(sub2[0].Interface(), a, fi, uint64(idx))
@@ -1396,7 +1687,7 @@ func (r *replayer) touchValidator(s *step, h *handle, fi *fieldInfo, a accessor,
 		return
 	}
 	if !reflect.DeepEqual(got, canon(exp2)) {
-		r.dev("C15", "subfield_setter_wrong", fi.Name, s.Op, s.H, "validator %d after sub-field setter %d: %s, expected %s", idx, which, short(got), short(exp2))
+		r.dev("C15", "subfield_setter_wrong", fi.Name, s.Op, s.H, "validator %d after sub-field setters (%s): %s, expected %s", idx, which, short(got), short(exp2))
 	}
 }
 
